@@ -53,10 +53,30 @@ theorem C19_write_all (data accepts sizes : List Nat) (hev : ∀ a ∈ accepts, 
 theorem C19_roundtrip (bs : List Nat) (hb : ∀ b ∈ bs, b < 256) : denote (encode bs) = some bs :=
   denote_encode bs hb
 
+/-- The two adapters composed: whatever `HexWrite` leaves in the sink after the
+caller's write loop (any even acceptances ≥ 2, any write sizes) is read back by
+`HexRead` as exactly the bytes written — for every fragmentation of the
+reader and every sequence of caller buffers. -/
+theorem C19_write_then_read (data accepts sizes sched bufs : List Nat) (hb : ∀ b ∈ data, b < 256)
+    (hev : ∀ a ∈ accepts, a % 2 = 0 ∧ 2 ≤ a) :
+    let sink := (writeLoop (data.length + 1) data accepts sizes [] 0).2.1
+    readAll (sink.length + 2) {} ⟨sink, sched⟩ bufs [] = .ok data := by
+  intro sink
+  have hw : sink = encode data := by
+    show (writeLoop (data.length + 1) data accepts sizes [] 0).2.1 = _
+    rw [C19_write_all data accepts sizes hev]
+  have hr := C19_read sink sched bufs (sink.length + 2) (Nat.le_refl _)
+  rw [hw, C19_roundtrip data hb] at hr
+  rw [hw]; exact hr
+
+
 -- non-vacuity: "0x01ff\n" read one character at a time into 1-byte buffers
 example : readAll 9 {} ⟨[48, 120, 48, 49, 102, 102, 10], [1, 1, 1, 1, 1, 1, 1]⟩ [1, 1, 1] [] = .ok [1, 255] := by decide
 example : denote [48, 120, 48, 49, 102, 102, 10] = some [1, 255] := by decide
 example : denote [48, 49, 50] = none := by decide
 example : ∃ pre, readAll 5 {} ⟨[48, 49, 50], [2, 1]⟩ [1] [] = .err pre := ⟨[1], by decide⟩
+
+-- the composed statement on a concrete run: two bytes, sink accepts 2 characters at a time, reader splits every character
+example : (writeLoop 3 [1, 255] [2, 2, 2] [1, 1, 1] [] 0).2.1 = [48, 49, 102, 102] := by decide
 
 end EtkVerif.C19
